@@ -54,12 +54,23 @@ type Walker struct {
 	maxDepth int
 	// Watch selects additional call instructions to report as events.
 	Watch func(ci ssa.CallInstruction) string
+	// atCall: closures entered at the call of the struct field that holds them (Walk's first pass)
+	atCall map[*ssa.MakeClosure]bool
+	dry    bool
 }
 
 func newWalker(cx *Ctx) *Walker { return &Walker{cx: cx, ts: newTerms(cx)} }
 
 // Walk visits every frame reachable from entry, depth-first.
 func (w *Walker) Walk(entry *ssa.Function, visit func(fr *Frame)) {
+	// first pass (no visitor): which function values kept in struct fields are called at a
+	// place where the chain tells which closure they are - those are entered there, with
+	// the facts of the call site, and not where they are created
+	w.atCall = map[*ssa.MakeClosure]bool{}
+	w.dry = true
+	w.walk(&Frame{Fn: entry}, func(*Frame) {})
+	w.dry = false
+	w.frames, w.over, w.cut = 0, false, 0
 	root := &Frame{Fn: entry}
 	w.walk(root, visit)
 }
@@ -121,12 +132,42 @@ func (w *Walker) walk(fr *Frame, visit func(fr *Frame)) {
 			}
 		}
 	}
+	// a call of a function-typed struct field that the chain resolves to a closure created
+	// in an enclosing frame: entered here
+	for _, b := range fr.Fn.Blocks {
+		for _, ins := range b.Instrs {
+			ci, ok := ins.(ssa.CallInstruction)
+			if !ok || ci.Common().IsInvoke() || ci.Common().StaticCallee() != nil {
+				continue
+			}
+			if _, isB := ci.Common().Value.(*ssa.Builtin); isB {
+				continue
+			}
+			if !throughField(ci.Common().Value) {
+				continue
+			}
+			mc, fn, creator := resolveClosure(ci.Common().Value, fr, 0)
+			if mc == nil || fn == nil || creator == nil || fn.Blocks == nil || onChain(fr, fn) {
+				continue
+			}
+			if w.atCall != nil {
+				w.atCall[mc] = true
+			}
+			nfr := &Frame{Fn: fn, Parent: creator, MC: mc, Via: fr, ViaSite: ci, Depth: fr.Depth + 1}
+			w.walk(nfr, visit)
+		}
+	}
 	for _, e := range w.cx.Edges(fr.Fn) {
 		if e.Callee.Blocks == nil || onChain(fr, e.Callee) {
 			continue
 		}
 		if e.Kind == "closure" && w.cx.closurePassedAsArg(e.Callee) {
 			continue // entered where it is passed as an argument
+		}
+		if e.Kind == "closure" && !w.dry && w.atCall != nil {
+			if mc, ok := e.Site.(*ssa.MakeClosure); ok && w.atCall[mc] {
+				continue // entered where the struct field holding it is called
+			}
 		}
 		if !isIrismodFunc(e.Callee) && e.Callee.Synthetic == "" {
 			continue
@@ -355,6 +396,9 @@ func firstErrorStep(f *Frame) ssa.CallInstruction {
 		return nil
 	}
 	ci, ok := f.ViaSite.(ssa.CallInstruction)
+	if ok && !ci.Common().IsInvoke() && ci.Common().StaticCallee() == nil && throughField(ci.Common().Value) {
+		return ci // the call of the struct field that holds this very closure: it runs exactly then
+	}
 	if !ok || ci.Common().IsInvoke() || !firstErrorCombinator(ci.Common().StaticCallee()) {
 		return nil
 	}
@@ -2319,4 +2363,16 @@ func quantifierOf(g *ssa.Function) *quantifier {
 	}
 	quantMemo[g] = q
 	return q
+}
+
+// throughField: the called function value is read from a struct field.
+func throughField(v ssa.Value) bool {
+	switch x := v.(type) {
+	case *ssa.UnOp:
+		_, ok := x.X.(*ssa.FieldAddr)
+		return ok
+	case *ssa.Field:
+		return true
+	}
+	return false
 }
